@@ -152,7 +152,7 @@ func init() {
 			{Name: "k0=list", Prog: []Op{C("RPUSH", k0, "a")}},
 		}
 		return &Spec{Prop: "C10", ShardNum: shardNum, Keys: []string{k0}, Alphabet: ops, Seeds: seeds,
-			Depth: depthOf(tier, 3, 6), Budget: budget(tier, 150*time.Second, 25*time.Minute), TTLTolMs: 1000,
+			Depth: depthOf(tier, 4, 6), Budget: budget(tier, 150*time.Second, 25*time.Minute), TTLTolMs: 1000,
 			Rule: "BFS over programs of hash commands (fields {f,g,''}, values incl. empty, numeric extremes, CRLF) from empty, seeded hashes and wrong-typed keys; compared with a map model (reply, HGETALL/HLEN/EXISTS/TYPE observers)"}
 	}
 
@@ -202,7 +202,7 @@ func init() {
 			{Name: "k0={a},k2={a,b}", Prog: []Op{C("SADD", k0, "a"), C("SADD", k2, "a", "b")}},
 		}
 		return &Spec{Prop: "C11", ShardNum: shardNum, Keys: keys, Alphabet: ops, Seeds: seeds,
-			Depth: depthOf(tier, 3, 8), Budget: budget(tier, 150*time.Second, 25*time.Minute), TTLTolMs: 1000,
+			Depth: depthOf(tier, 8, 8), Budget: budget(tier, 150*time.Second, 25*time.Minute), TTLTolMs: 1000,
 			Rule: "BFS over programs of set commands (members {a,b,''}; keys colliding and not; every combination of existing/missing/wrong-typed operands) compared with a map-of-sets model; SPOP's result is adopted after checking it was a current member"}
 	}
 
@@ -315,7 +315,7 @@ func init() {
 			{Name: "k0=string", Prog: []Op{C("SET", k0, "x")}},
 		}
 		return &Spec{Prop: "C18", ShardNum: shardNum, Keys: []string{k0}, Alphabet: ops, Seeds: seeds,
-			Depth: depthOf(tier, 3, 6), Budget: budget(tier, 150*time.Second, 25*time.Minute), TTLTolMs: 1000,
+			Depth: depthOf(tier, 4, 6), Budget: budget(tier, 150*time.Second, 25*time.Minute), TTLTolMs: 1000,
 			Rule: "BFS over programs of XADD (explicit/partial/auto ids, NOMKSTREAM, MAXLEN/MINID with = and ~) and XRANGE (all bound shapes) plus 1 ms / 1 s clock events; compared with an ordered-slice model; id order and id<->entry bijection checked in every state"}
 	}
 }
